@@ -79,12 +79,12 @@ def one(m, neutral, with_tests):
             if neutral:
                 if rc != 0:
                     good = False
-                    res['checks'][p]['stderr'] = errt[-400:]
+                    res['checks'][p]['stderr'] = errt[:1500]
             else:
                 want = m['rule']
                 if rc != 1 or not viol or not any(r_ == want or r_.startswith(want) for r_ in rules):
                     good = False
-                    res['checks'][p]['stderr'] = errt[-400:]
+                    res['checks'][p]['stderr'] = errt[:1500]
         res['status'] = 'ok' if good else ('FALSE-ALARM' if neutral else 'MISSED')
     finally:
         shutil.rmtree(d, ignore_errors=True)
@@ -129,7 +129,7 @@ def main():
             if res['status'] not in ('ok',):
                 for p, c in res['checks'].items():
                     if c.get('stderr'):
-                        print('     ', p, c['stderr'].replace('\n', ' | ')[:300])
+                        print('     ', p, c['stderr'].replace('\n', ' | ')[:1500])
     summary = {
         'mutants': sum(1 for r in results if not r.get('neutral') and r['id'] != 'baseline-copy'),
         'caught': sum(1 for r in results if not r.get('neutral') and r['status'] == 'ok' and r['id'] != 'baseline-copy'),
